@@ -18,6 +18,11 @@ theorem scanContinues_iff (off : Int) (n : Nat) : scanContinues off n = true ↔
     `unsigned char` -/
 theorem split_agrees : splitOp = ">" ∧ splitBound = runMax ∧ splitLen = runMax ∧ splitDec = runMax := by decide
 
+/-- `find_line` rejects exactly the offsets GREATER than the program size (offset = size, the pc behind the last
+    instruction, is decoded) -/
+theorem psizeRejects_iff (off : Int) (n : Nat) : psizeRejects off n = true ↔ off > (n : Int) := by
+  simp [psizeRejects]
+
 theorem findRun_cons (r : Run) (rest : List Run) (off : Int) :
     findRun (r :: rest) off = if off > (r.len : Int) then findRun rest (off - r.len) else some r := by
   simp [findRun, scanContinues]
